@@ -49,9 +49,9 @@ CLAIMS = {
                     'timeline) proved on every path of the kernel; __presence_test/has_interaction proved to return s_0 <= t <= max(dom Cnt); the C02-style queries in this '
                     'mode are bounded.',
             'note': KERNEL_NOTE + ' max() and sorted() by trusted contract.'},
-    'C09': {'level': 'exploration', 'technique': 'bounded stand-in (real files: plain/.gz/.bz2/file objects, delimiters, encodings) with an oracle from the property text',
-            'text': 'Exact multiset of rows written, orientation, and presence after reading back, over the small scope x targets x delimiters x encodings x id types; '
-                    'four-column rows. File system and codecs are outside the reach of a contract.', 'note': BOUNDED_NOTE},
+    'C09': {'level': 'other', 'technique': 'contract-based deductive verification (pyvc) of generate_snapshots (row multiset; three nested loop invariants, modular against the listing contract); bounded stand-in (real files) for bytes, codecs and the reader',
+            'text': 'generate_snapshots is proved to yield exactly one row (u,v,q) per listed interaction and per instant q at which it is present, with the listing orientation (directed: out_interactions), for all graphs with canonical timelines, without modifying the graph; the row string is kept as an injective constructor (trusted codec axiom). Bounded: exact multiset of rows written, orientation, and presence after reading back, over the small scope x targets x delimiters x encodings x id types; '
+                    'four-column rows. File system and codecs are outside the reach of a contract.', 'note': KERNEL_NOTE + ' Trusted: delimiter.join(map(make_str, [u,v,t])) as an injective row constructor.'},
     'C10': {'level': 'exploration', 'technique': 'bounded stand-in (real files) with an oracle from the property text',
             'text': 'Rows = stream events in order; presence and stream after the round trip; ~20k well-formed logs fed directly to the reader and compared with the oracle '
                     'meaning of the log. Known finding D06 reported.', 'note': BOUNDED_NOTE},
